@@ -87,6 +87,23 @@ def trailersPreserve (code : Int) (msg : Bytes) (details : List Detail) (t : Sta
    | some s => s.code == code && s.message == msg && s.details == details
    | none => details.isEmpty)
 
+/-- "preserves code and message" for status trailers handed to the repository's own reader (the
+reference client's `checkGRPCStatus`): it finds the two carriers in agreement, i.e. what it
+decoded from `grpc-message` is the message inside `grpc-status-details-bin`. -/
+def readBackAgrees (d : StatusDisagreement) : Bool := !d.code && !d.message
+
+/-- the two maps hold the same values, in order, under every key of either (a key without
+values is the same as an absent key: grpc-go's outgoing context and `http.Header.Add` are fed
+value by value) -/
+def sameValues (a b : MD) : Bool :=
+  (mdKeys a).all (fun k => mdGet a k == mdGet b k) && (mdKeys b).all (fun k => mdGet a k == mdGet b k)
+
+/-- gRPC metadata as grpc-go holds it: distinct lower-case keys -/
+def lowerDistinct (md : MD) : Bool := nodupB (mdKeys md) && md.all (fun kv => lower kv.1 == kv.1)
+
+/-- an `http.Header` as net/http builds it: distinct canonical keys -/
+def canonDistinct (md : MD) : Bool := nodupB (mdKeys md) && md.all (fun kv => canon kv.1 == kv.1)
+
 /-- "The strict codecs decode what they encode", for one encoding observed in a sequence of
 calls: `snap` are the bytes the call returned, `final` the bytes of that same result after
 all later calls of the sequence, `dec` whether `final` decodes (strictly) to the message that
